@@ -642,6 +642,36 @@ fn special_descriptors(case: u64, r: &mut Rng) {
         }
     }
     out::count("special_descriptor_sequences", 1);
+    if case % 5 == 1 {
+        // data-dependent paths: page-sized buffers that are all zero (or all one byte) written over
+        // existing non-zero file contents, at aligned and unaligned file positions; result, file
+        // position and file CONTENTS must equal std's
+        let existing = r.random_bytes(3 * 4096 + 100).into_iter().map(|b| b | 1).collect::<Vec<u8>>();
+        let mk = |name: &str| -> std::fs::File {
+            let (mut f, path) = crate::models::world::named_temp_file(name, 0);
+            let _ = std::fs::remove_file(&path);
+            f.write_all(&existing).unwrap();
+            f
+        };
+        let mut f1 = mk("c13z1");
+        let mut f2 = mk("c13z2");
+        for i in 0..4 {
+            let pos = *r.pick(&[0u64, 4096, 100, 8192, existing.len() as u64, existing.len() as u64 + 4096]);
+            f1.seek(SeekFrom::Start(pos)).unwrap();
+            f2.seek(SeekFrom::Start(pos)).unwrap();
+            let len = *r.pick(&[4096usize, 8192, 4095, 4097, 512]);
+            let fill = *r.pick(&[0u8, 0, 0xff, 0x41]);
+            let data = vec![fill; len];
+            if !write_step("File(zero-pages)", &mut f1, &mut f2, &data, i % 2 == 1, i, usize::MAX, &ctx) {
+                break;
+            }
+            if file_state(&mut f1) != file_state(&mut f2) {
+                v("File(zero-pages)", "write/file-state-differs", jobj! {"pos" => pos, "len" => len, "fill" => fill, "ctx" => ctx.clone()});
+                break;
+            }
+        }
+        out::key("special|zero-pages-to-file", true);
+    }
     if case % 5 == 3 {
         nonblocking_exact(case, r);
     }
@@ -655,6 +685,11 @@ fn special_descriptors(case: u64, r: &mut Rng) {
 fn nonblocking_exact(case: u64, r: &mut Rng) {
     use std::sync::mpsc;
     use std::time::Duration;
+    // one hang is a witness; do not wait out the watchdog again and again
+    static HUNG: std::sync::atomic::AtomicBool = std::sync::atomic::AtomicBool::new(false);
+    if HUNG.load(std::sync::atomic::Ordering::Relaxed) {
+        return;
+    }
     let have = 1 + r.usize_below(6);
     let want = have + 1 + r.usize_below(12);
     let data = r.bytes(have);
@@ -681,6 +716,7 @@ fn nonblocking_exact(case: u64, r: &mut Rng) {
             }
         }
         Err(_) => {
+            HUNG.store(true, std::sync::atomic::Ordering::Relaxed);
             v("UnixStream(non-blocking)", "read_exact/did-not-return", jobj! {"std" => J::dbg(&std_res), "available" => have, "wanted" => want, "case" => case});
             let _ = b1.write_all(&vec![0u8; want]);
         }
@@ -710,6 +746,7 @@ fn nonblocking_exact(case: u64, r: &mut Rng) {
             }
         }
         Err(_) => {
+            HUNG.store(true, std::sync::atomic::Ordering::Relaxed);
             v("UnixStream(non-blocking)", "write_all/did-not-return", jobj! {"std" => J::dbg(&std_res), "case" => case});
             // drain so that the writer can finish
             let mut sink = vec![0u8; 1 << 16];
